@@ -194,9 +194,11 @@ def check_property(prop, cs, args, seed, lock, write_lock=False):
     rc = 0
     messages = []
     # ---- structural problems: exit 2 (or 3 for crashes), never a VIOLATION
+    undecided_contracts = {}
     for g in structural:
         messages.append("UNDECIDED %s[%s]: %s" % (g["contract"], g["mode"], g["error"].strip().splitlines()[-1]))
         rc = max(rc, 3 if g["kind"] == "crash" else 2)
+        undecided_contracts.setdefault(g["contract"], g)
         if g["kind"] == "crash" and args.v:
             print(g["error"])
     if n_err:
@@ -261,6 +263,22 @@ def check_property(prop, cs, args, seed, lock, write_lock=False):
             continue
         violations.append({"contract": cname, "obligations": [f["name"] for f in fl], "replay": path, "found": found,
                            "detail": detail})
+    # a function that can no longer be brought under its contract (changed beyond the verified
+    # subset): undecided by the proof; a bounded native search of the real code may still
+    # demonstrate a violation, which is then reported with the replayed input
+    for cname, g in sorted(undecided_contracts.items()):
+        c = cs[cname]
+        if not c.replay or cgroup_of.get(cname, cname) in fail_by_contract:
+            continue
+        fake = [{"name": "%s[%s]/outside-the-verified-subset" % (cname, g["mode"]), "status": "undecided", "backend": "-", "line": 0,
+                 "note": g["error"].strip().splitlines()[-1], "model": None, "path": []}]
+        path, found, detail = native_replay(prop, c, fake, os.path.join(HERE, "replay", prop), [])
+        if found:
+            canon = json.dumps(detail.get("failing_input"), sort_keys=True)
+            if any(kf.get("property") == prop and kf.get("input") and kf["input"].replace(" ", "") == canon.replace(" ", "") for kf in findings):
+                continue
+            violations.append({"contract": cname, "obligations": [fake[0]["name"] + " (undecided by the proof; violation shown by the bounded native search)"],
+                               "replay": path, "found": True, "detail": detail})
     for f in extra["failures"]:
         if f.get("crash"):
             rc = max(rc, 3)
@@ -363,8 +381,7 @@ def check_property(prop, cs, args, seed, lock, write_lock=False):
             print("  failing input replayed on the real code: %s" % json.dumps(v["detail"].get("failing_input"))[:400])
             print("  %s" % str(v["detail"].get("message"))[:400])
         print("VIOLATION property=%s replay=%s%s" % (prop, rel, tail))
-        rc = max(rc, 1) if rc < 2 else rc
-    if violations and rc in (0, 1):
+    if violations:
         rc = 1
     return rc
 
